@@ -152,7 +152,10 @@ def run(chk, pid, tier, seed, replay):
     tabs = tables(chk.REPO)
     if tier == "quick":
         h = int(hashlib.sha1(str(seed).encode()).hexdigest(), 16)
-        tabs = sorted({tabs[(h + i * 7) % len(tabs)] for i in range(3)})
+        # the two tables with the lowest crossovers (netburst: HGCD_REDUCE 45, tiny Toom/FFT/division thresholds; haswell: HGCD_REDUCE 772) make the
+        # code behind the large thresholds reachable at quick-tier sizes; a third table rotates with the seed
+        fixed = [t for t in ("mparam-netburst", "mparam-haswell") if t in tabs]; rest = [t for t in tabs if t not in fixed]
+        tabs = fixed + ([rest[h % len(rest)]] if rest else [])
         cfgs = ["cfg-fat", "cfg-alloca-debug-assert"]
         cases, scale = 15000, 100
     else:
